@@ -79,3 +79,59 @@ def mstr_split(s: Str, rest: Bytes):
     ensures((mstr(s) + rest)[0] * 256 + (mstr(s) + rest)[1] == len(utf8(s)))
     ensures((mstr(s) + rest)[2:2 + len(utf8(s))] == utf8(s))
     ensures((mstr(s) + rest)[2 + len(utf8(s)):] == rest)
+
+
+# ---- framing: everything about the first packet of a stream is decided by the bytes of that packet ------------
+@lemma(decreases='len(a) - j')
+def scan_prefix(a: Bytes, c: Bytes, j: int):
+    requires(0 <= j and scan(a, j) < len(a))
+    if j < len(a):
+        if a[j] >= 128:
+            scan_prefix(a, c, j + 1)
+    unfold(scan(a + c, j))
+    ensures(scan(a + c, j) == scan(a, j))
+
+
+@lemma(decreases='len(a) - j')
+def scan_shift(a: Bytes, j: int):
+    requires(0 <= j and len(a) >= 1)
+    if j + 1 < len(a):
+        scan_shift(a, j + 1)
+    unfold(scan(a[1:], j))
+    ensures(scan(a[1:], j) == scan(a, j + 1) - 1)
+
+
+@lemma(decreases='len(a)')
+def dl_prefix(a: Bytes, c: Bytes):
+    requires(scan(a, 0) < len(a))
+    if len(a) > 0:
+        if a[0] >= 128:
+            scan_shift(a, 0)
+            hint((a + c)[1:] == a[1:] + c)
+            dl_prefix(a[1:], c)
+    unfold(dl(a + c))
+    ensures(dl(a + c) == dl(a))
+
+
+@lemma
+def first_prefix(a: Bytes, c: Bytes):
+    requires(first(a) > 0)
+    scan_prefix(a, c, 1)
+    scan_shift(a, 0)
+    hint((a + c)[1:] == a[1:] + c)
+    dl_prefix(a[1:], c)
+    ensures(first(a + c) == first(a))
+
+
+@lemma(decreases='len(a)')
+def seg(a: Bytes, c: Bytes):
+    """segmentation: feeding a then c dispatches the same frames and leaves the same remainder as feeding a + c"""
+    if first(a) > 0:
+        first_prefix(a, c)
+        hint((a + c)[:first(a)] == a[:first(a)])
+        hint((a + c)[first(a):] == a[first(a):] + c)
+        seg(a[first(a):], c)
+        unfold(frames(a + c))
+        unfold(rem(a + c))
+    ensures(frames(a + c) == frames(a) + frames(rem(a) + c))
+    ensures(rem(a + c) == rem(rem(a) + c))
